@@ -326,6 +326,9 @@ pub struct Planted {
     /// give the first row of every nonnegative(-like) cone a very loose but finite right-hand side (1e18: below
     /// the infinity bound, so the row is kept and the data span 18 orders of magnitude)
     pub loose_rows: bool,
+    /// turn the first nonnegative row into `0'x <= -1e21`: a strongly infeasible problem (certificate e_i)
+    /// whose offending row lies beyond "minus infinity" and must never be treated as vacuous
+    pub minus_inf_row: bool,
     ndev: usize,
 }
 
@@ -355,8 +358,14 @@ impl Planted {
             label: label.to_string(),
             inf_rows: false,
             loose_rows: false,
+            minus_inf_row: false,
             ndev,
         }
+    }
+    pub fn with_minus_inf_row(mut self) -> Self {
+        self.minus_inf_row = true;
+        self.label = format!("{}-minusinfrow", self.label);
+        self
     }
     pub fn with_loose_rows(mut self) -> Self {
         self.loose_rows = true;
@@ -418,6 +427,19 @@ impl Planted {
             for c in &p.cones.clone() {
                 if matches!(c, ConeSpec::NN(k) if *k > 0) || matches!(c, ConeSpec::SOC(1) | ConeSpec::PSD(1)) {
                     p.b[off] = if self.inf_rows { 1e30 } else { 1e18 };
+                }
+                off += c.numel();
+            }
+        }
+        if self.minus_inf_row {
+            let mut off = 0;
+            for c in &p.cones.clone() {
+                if matches!(c, ConeSpec::NN(k) if *k > 0) {
+                    for j in 0..p.n {
+                        p.a.set(off, j, 0.0);
+                    }
+                    p.b[off] = -1e21;
+                    break;
                 }
                 off += c.numel();
             }
